@@ -254,7 +254,7 @@ def gen_stress(rng, tier):
     big = tier != "quick"
     n = rng.choice([2000, 5000] if not big else [20000, 50000])
     k = rng.choice(["drain", "drain", "fill", "pc", "badd", "badd"])
-    c = ["qstress", ["kind", k], ["n", n if k not in ("pc", "badd") else n // 4], ["spin", rng.choice([2, 3, 4])]]
+    c = ["qstress", ["kind", k], ["n", n if k not in ("pc", "badd") else (n // 4 if k == "pc" else min(n // 4, 3000))], ["spin", rng.choice([2, 3, 4])]]
     if k == "pc":
         c += [["prod", rng.choice([1, 2, 3])], ["cons", rng.choice([1, 2, 3])]]
     if k == "badd":
